@@ -144,7 +144,7 @@ def build(need_cli=False, quiet=False):
             st["extract"] = p.returncode == 0 and os.path.exists(os.path.join(odir, "model.ml"))
             if st["extract"]:
                 shutil.copyfile(os.path.join(ROOT, "ocaml", "driver.ml"), os.path.join(odir, "driver.ml"))
-                p = sh("ocamlfind ocamlopt -O3 -w -a -rectypes -thread -package coq-core.kernel,str -linkpkg model.mli model.ml driver.ml -o ../model_driver 2>&1",
+                p = sh("ocamlfind ocamlopt -O3 -w -a -rectypes -thread -package coq-core.kernel,str,zarith -linkpkg model.mli model.ml driver.ml -o ../model_driver 2>&1",
                        cwd=odir, timeout=900)
                 st["log"]["driver"] = p.stdout[-4000:]
                 st["driver"] = p.returncode == 0
@@ -178,9 +178,16 @@ def proof_status(prop):
     assumptions = ""
     if ok and thms:
         script = "From EF Require Import Properties.%s.\n" % prop + "".join("Print Assumptions %s.\n" % t for t in thms)
-        p = subprocess.run("coqtop -Q . EF -batch 2>&1", input=script, cwd=COQ, shell=True, text=True,
-                           stdout=subprocess.PIPE, timeout=300)
-        assumptions = re.sub(r"\n+", "\n", p.stdout.replace("Coq < ", "")).strip()
+        os.makedirs(os.path.join(BUILD, "pa"), exist_ok=True)
+        paf = os.path.join(BUILD, "pa", "PA_%s.v" % prop)
+        open(paf, "w").write(script)
+        p = sh("timeout 300 coqc -Q %s EF %s 2>&1" % (COQ, paf), cwd=os.path.join(BUILD, "pa"), timeout=320)
+        outs = [x.strip() for x in re.split(r"(?=Closed under the global context|Axioms:)", p.stdout) if x.strip()]
+        closed = sum(1 for x in outs if x.startswith("Closed under"))
+        axioms = sorted(set(re.sub(r"\s+", " ", x) for x in outs if x.startswith("Axioms:")))
+        assumptions = "%d of %d theorems: Closed under the global context" % (closed, len(thms))
+        if axioms:
+            assumptions += "; others depend on: " + " | ".join(axioms)
     return dict(file=rel, theorems=thms, obligations=len(thms), discharged=len(thms) if ok else 0, ok=ok,
                 assumptions=assumptions)
 
